@@ -141,9 +141,11 @@ def run_harness(qualname, params_tree, overrides=None):
     runs the REAL function under contract against the same stubbed dependencies."""
     from vf.contracts import rt
 
+    import inspect
     fn = resolve(qualname)
     memo = {}
-    kwargs = {name: build(t, memo) for name, t in params_tree.items()}
+    wanted = set(inspect.signature(fn).parameters)
+    kwargs = {name: build(t, memo) for name, t in params_tree.items() if name in wanted}
     rt.CHECKS_RUN.clear()
     rt.EVENTS.clear()
     rt.GHOST.clear()
